@@ -44,7 +44,7 @@ pub struct Case {
 
 fn strategy() -> impl Strategy<Value = Case> {
 	let cfg = GenCfg { ns_min: 2, ns_max: 2, p_missing: 10, style: TargetStyle::Simple, param_src_names: false, max_classes: 5, p_nested: 45, backslash_docs: true, ..GenCfg::default() };
-	let node = (proptest::collection::vec(any::<u16>(), 1..3), prop_oneof![2 => Just(false), 1 => Just(true)], draws(), prop_oneof![1 => Just(0u8), 3 => 1u8..=9]).prop_map(|(parents, split_name, edits, style)| Node { parents, split_name, edits, style });
+	let node = (proptest::collection::vec(any::<u16>(), 1..3), prop_oneof![2 => Just(false), 1 => Just(true)], draws(), prop_oneof![1 => Just(0u8), 3 => 1u8..=10]).prop_map(|(parents, split_name, edits, style)| Node { parents, split_name, edits, style });
 	let roots = prop_oneof![3 => mapset(GenCfg { p_missing: 0, ..cfg.clone() }), 2 => mapset(cfg)];
 	(roots, proptest::collection::vec(node, 1..8), proptest::collection::vec(any::<u16>(), 24), proptest::collection::vec(any::<u16>(), 24), prop_oneof![5 => Just(0u8), 1 => 1u8..7, 1 => Just(4u8)], proptest::collection::vec(any::<(u16, u16)>(), 0..4), any::<u8>()).prop_map(|(mut root, nodes, order1, order2, malformed, extra, variant)| {
 		root.ns = vec!["calamus".into(), "named".into()];
@@ -74,9 +74,14 @@ fn plain_name(k: usize, style: u8, side: &str) -> String {
 		6 => format!("{k}.tiny.x{side}"),
 		7 => format!("{k}.tinydiffs{side}"),
 		8 => format!("1.{k}.tiny{side}.0"),
+		// the long side of an entry of the command line's shortcut table (`1.0` stands for `1.0.0` there - but only there)
+		10 => format!("{}{}", SHORTCUTS[k % SHORTCUTS.len()].1, if side == "s" { "-s" } else { "" }),
 		_ => format!("a{k}.{side}_0.1.tinydif"),
 	}
 }
+
+/// a few entries of `VERSION_SHORTCUTS` in /repo/src/version_graph.rs: (what may be typed on the command line, the version it stands for)
+const SHORTCUTS: &[(&str, &str)] = &[("1.0", "1.0.0"), ("1.4", "1.4-pre"), ("b1.1", "b1.1-1245"), ("12w05a", "12w05a-1442"), ("15w14a", "af-2015"), ("1.7", "1.7-pre"), ("1.3", "1.3-pre-07261249"), ("b1.4", "b1.4-1507"), ("1.RV-Pre1", "af-2016")];
 
 fn node_name(k: usize, n: &Node) -> String {
 	if n.split_name {
@@ -400,6 +405,8 @@ fn check(case: &Case, obs: &mut Obs) -> PropResult {
 			}
 			let is_key = |x: &str| keys.iter().any(|k| k == x);
 			let mut unknown: Vec<String> = vec!["no-such-version".into(), String::new(), "~".into()];
+			// what the shortcut table of the command line abbreviates is not a name of the directory
+			unknown.extend(SHORTCUTS.iter().map(|(short, _)| short.to_string()).filter(|x| !is_key(x)));
 			for k in &keys {
 				for cand in [format!("{k} "), format!(" {k}"), format!("{k}~"), format!("~{k}"), format!("{k}0"), k[..k.len() - 1].to_string(), k.to_uppercase(), format!("{k}.tiny"), format!("{k}#{k}")] {
 					if !is_key(&cand) {
